@@ -174,6 +174,21 @@ pub fn borrow_programs() -> Vec<Prog> {
         add("readonly_view_coexists_with_mutable_borrow", format!("vr_{i}_{ni}"), format!("{head} let mut v = m.view_mut(); let r = (&v).view(); let a = {bi}; touch(&a); touch(&r);"), true);
         add("readonly_view_then_mutable_borrow", format!("vr_ok_{i}_{ni}"), format!("{head} let mut v = m.view_mut(); {{ let r = (&v).view(); touch(&r); }} let a = {bi}; touch(&a);"), false);
     }
+    // shared accessors of a mutable view must not stay alive across a mutable use of the same view
+    let accessors = [("value", "v.value()"), ("prefix", "v.prefix()"), ("prefix_value", "v.prefix_value()"), ("view", "(&v).view()"), ("view_iter", "(&v).view().iter()")];
+    let mut_uses = [("value_mut", "v.value_mut()"), ("set", "v.set(1)"), ("remove", "v.remove()"), ("iter_mut", "v.iter_mut()"), ("values_mut", "v.values_mut()"), ("prefix_value_mut", "v.prefix_value_mut()"), ("union_mut", "v.union_mut(m2.view_mut())"), ("difference_mut", "v.difference_mut(m3.view())")];
+    for (i, (na_, acc)) in accessors.iter().enumerate() {
+        for (j, (nm, mu)) in mut_uses.iter().enumerate() {
+            add("shared_accessor_live_across_mutable_use", format!("va_{i}_{j}_{na_}__{nm}"), format!("{head} let mut v = m.view_mut(); let r = {acc}; let a = {mu}; touch(&a); touch(&r);"), true);
+            add("shared_accessor_then_mutable_use", format!("va_ok_{i}_{j}_{na_}__{nm}"), format!("{head} let mut v = m.view_mut(); {{ let r = {acc}; touch(&r); }} let a = {mu}; touch(&a);"), false);
+        }
+    }
+    // items of a *_mut traversal must not stay alive across another mutable use of the view
+    for (i, (ni, bi)) in vb.iter().enumerate() {
+        for (j, (nm, mu)) in mut_uses.iter().enumerate() {
+            add("mut_traversal_items_live_across_mutable_use", format!("vi_{i}_{j}_{ni}__{nm}"), format!("{head} let mut v = m.view_mut(); let items: Vec<_> = {bi}.into_iter().collect(); let a = {mu}; touch(&a); touch(&items);"), true);
+        }
+    }
     for (i, (ni, ci)) in vc.iter().enumerate() {
         for (j, (nj, cj)) in vc.iter().enumerate() {
             add("mutable_view_used_after_move", format!("vc_{i}_{j}_{ni}__{nj}"), format!("{head} let v = m.view_mut(); let a = {ci}; let b = {cj}; touch(&a); touch(&b);"), true);
